@@ -25,9 +25,9 @@ CMD = {1: "kill-line", 2: "kill-word(M-d)", 3: "kill-word(C-Delete)", 4: "C-w", 
        38: 'vi-"rp', 39: 'vi-"rP', 40: "vi-visual", 51: "vi-s+Esc", 52: "vi-C+Esc", 53: "vi-S+Esc",
        60: "vi-operator-motion"}
 VKEY = {0: "d", 1: "y", 2: "x", 3: '"rd', 4: '"ry'}
-# navigation mode [count]["r]<operator><motion>: op 60 = [60, arg, operator, register or -1, motion]
+# navigation mode [count]["r]<operator>[count]<motion>: op 60 = [60, arg, operator, register or -1, motion(, motion count)]
 NAV_OPS = "dyc"
-NAV_MOT = ["l", "h", "$", "0", "^", "e", "b", "B"]
+NAV_MOT = ["l", "h", "$", "0", "^", "e", "b", "B", "w", "W"]
 INSERT_ONLY = {1, 2, 3, 5, 6, 7, 8, 15, 17}
 
 
@@ -51,7 +51,7 @@ def cmd_name(op):
         return "vi-visual-" + VKEY.get(op[4], "?")
     if op[0] == 60:
         try:
-            return "vi-%s%s%s" % ('"r' if op[3] >= 0 else "", NAV_OPS[op[2]], NAV_MOT[op[4]])
+            return "vi-%s%s%s%s" % ('"r' if op[3] >= 0 else "", NAV_OPS[op[2]], "<n>" if len(op) > 5 and op[5] else "", NAV_MOT[op[4]])
         except Exception:  # noqa
             return "vi-operator-motion"
     return CMD.get(op[0], "?")
@@ -129,7 +129,9 @@ def cmd_keys(op):
         return [_kp('"'), _kp(chr(r)), _kp("d" if key == 3 else "y")]
     if k == 60:
         o, r, m = op[2], op[3], op[4]
-        return (([_kp('"'), _kp(chr(r))] if r >= 0 else []) + [_kp(NAV_OPS[o]), _kp(NAV_MOT[m])]
+        marg = op[5] if len(op) > 5 else 0
+        return (([_kp('"'), _kp(chr(r))] if r >= 0 else []) + [_kp(NAV_OPS[o])]
+                + ([_kp(ch) for ch in str(marg)] if marg else []) + [_kp(NAV_MOT[m])]
                 + ([ESC] if o == 2 else []))
     raise ValueError(op)
 
@@ -575,7 +577,10 @@ class Oracle:
             # given, else the unnamed one) receives exactly the text the motion spans, type CHARACTERS;
             # d / c remove exactly that text, y changes nothing; nothing else is touched
             o, r, m = op[2], op[3], op[4]
-            span = nav_span(t0, c0, m, arg)
+            # a count typed between operator and motion multiplies the one typed before the operator
+            marg = op[5] if len(op) > 5 and op[5] else 1
+            narg = arg * (1 if marg >= 1000000 else marg)
+            span = nav_span(t0, c0, m, 1 if narg >= 1000000 else narg)
             validreg = r >= 0 and chr(r).isascii() and (chr(r).islower() or chr(r).isdigit())
             if span is None or span[0] >= span[1]:
                 if t1 != t0 or ring1 != ring0 or regs1 != regs0:
@@ -608,7 +613,7 @@ _WORD_RE = None
 def nav_span(t, c, m, n):
     """[x, y): the text a navigation-mode motion spans from cursor c (count n); None = no motion.
     l h $ 0 ^ stay on the line; e = through the end of the n-th word after the cursor character;
-    b / B = back to the n-th word / WORD start before the cursor.  An exclusive span that ends at
+    b / B = back to the n-th word / WORD start before the cursor; w / W = forward to the n-th word / WORD start.  An exclusive span that ends at
     column 0 ends before that line's separator (Vi's rule for exclusive motions)."""
     import re
     global _WORD_RE
@@ -632,6 +637,10 @@ def nav_span(t, c, m, n):
         if len(ends) < n:
             return None
         return c, ends[n - 1]
+    elif m in (8, 9):
+        # w / W: up to the n-th word start after the cursor, or to the end of the text
+        starts = [mm.start() for mm in _WORD_RE[1 if m == 9 else 0].finditer(t) if mm.start() > c]
+        x, y = c, (starts[n - 1] if 1 <= n <= len(starts) else len(t))
     else:
         starts = [mm.start() for mm in _WORD_RE[1 if m == 7 else 0].finditer(t) if mm.start() < c]
         if len(starts) < n or n < 1:
@@ -883,7 +892,9 @@ def rand_vi_ops(rng, tlen, n):
             ops.append([40, [], rng.randint(0, tlen), rng.choice([0, 0, 1, 2]), rng.choice([0, 1, 2, 3, 4]), rng.choice(regs)])
         elif r < 0.93:
             ops.append([60, rng.choice([[], [], [2], [3], [tlen + 1]]), rng.choice([0, 0, 1, 1, 2]),
-                        rng.choice([-1, -1] + regs), rng.randrange(len(NAV_MOT))])
+                        rng.choice([-1, -1] + regs), rng.randrange(len(NAV_MOT)), rng.choice([0, 0, 0, 2, 3, 1000000])])
+            if ops[-1][4] == 3:
+                ops[-1][5] = 0      # "d20" is d with count 20, not d2 + the motion 0
         else:
             ops.append([19, [], rng.randint(0, tlen)])
     return ops
@@ -957,15 +968,25 @@ def gen_cases(chk):
         for key in (3, 4):
             add("vi_all_registers", [1, S("ab cd\nef"), 1, vring, [[40, [], 4, 0, key, r], [38, [], r], [39, [2], r], [38, [], 98]]])
     # E2. navigation mode [count]["r] d / y / c + motion on every small document, then a paste of that register
-    pN = 0.25 if thorough else 0.03
+    pN = 0.1 if thorough else 0.013
     for t in texts_upto(ALPHA_E, 4):
         for cur in range(len(t) + 1):
             for o in (0, 1, 2):
                 for r in (-1, 97):
                     for m in range(len(NAV_MOT)):
-                        for a in ([], [2]):
+                        for a, marg in (([], 0), ([2], 0), ([], 2), ([2], 2)):
+                            if m == 3 and marg:
+                                continue    # a 0 after a digit continues the count
                             pk = [38, [], 97] if r >= 0 else [37, []]
-                            add("vi_operator_motion_exhaustive", [1, S(t), cur, vring, [[60, a, o, r, m], pk]], pN)
+                            add("vi_operator_motion_exhaustive", [1, S(t), cur, vring, [[60, a, o, r, m, marg], pk]], pN)
+    # counts on both sides of the operator on a longer text: 2"ad2w, d3l, ...
+    for cur in (0, 3, 7):
+        for o in (0, 1, 2):
+            for r in (-1, 97):
+                for m in (0, 1, 5, 6, 8, 9):
+                    for a, marg in (([2], 2), ([], 3), ([3], 0), ([], 1000000), ([1000], 1000)):
+                        add("vi_operator_motion_counts", [1, S("ab cd-ef gh\nij kl mn op"), cur + (12 if m in (1, 6) else 0), vring,
+                                                         [[60, a, o, r, m, marg], [38, [], 97] if r >= 0 else [37, []]]])
     for r in (65, 45, 0x754c, 122, 48):
         for o in (0, 1, 2):
             for m in (0, 5, 6):
@@ -1089,7 +1110,7 @@ def main(tier):
         "command x 6 arguments x all documents of length <= %d over %r x all cursors followed by yank and 3 yank-pops; "
         "repeated word kills; every (mark, point) region; Vi x/X/D/dd/yy x counts and every visual selection "
         "(both ends, 3 types, d/y/x/\"rd/\"ry) on all documents <= %d over %r followed by pastes; every paste type x mode x count; "
-        "all 36 register names + 4 invalid ones; navigation-mode [count][\"r]d/y/c + motion (l h $ 0 ^ e b B) on all documents "
+        "all 36 register names + 4 invalid ones; navigation-mode [count][\"r]d/y/c[count] + motion (l h $ 0 ^ e b B w W) on all documents "
         "<= 4 over the emacs alphabet followed by a paste of that register (sampled); random sessions in both modes (rings of 58-60 entries included). "
         "non-trivial = some command succeeded and changed text, ring or registers; quick tier samples the exhaustive families "
         "(10-50%%)." % (5 if chk.tier == "thorough" else 4, ALPHA_E, 5 if chk.tier == "thorough" else 4, ALPHA_V))
@@ -1097,7 +1118,7 @@ def main(tier):
         "key dispatch (which binding a key reaches, filters) is outside the model: commands that are not bound in the current "
         "state (insert-mode commands while a selection is active) are answered 'unmodelled' by both sides and never asserted on",
         "Vi operator + motion in navigation mode is modelled for d / y / c x optional register x count x the motions "
-        "l h $ 0 ^ e b B (command 60); other motions and text objects (w, iw, f<c>, j, k, ...) are only covered by the "
+        "l h $ 0 ^ e b B w W (command 60), counts before the operator and between operator and motion; other motions and text objects (iw, f<c>, j, k, ...) are only covered by the "
         "oracle-only differential register probe",
         "re's \\s class and [a-zA-Z0-9_] are modelled by Gen/Whitespace.re_space_table and ASCII ranges; CPython slicing, "
         "split, join, ljust, rfind are re-implemented in Coq and tied by this correspondence only",
